@@ -101,6 +101,20 @@ def gen_cases(tier, seed):
             case["pack"].update(dead=True, order=0, plus=d.random() < 0.3, factory=None, inferral=[], sym=False,
                                 ver="stat", iterative=False)
             case["deadchild"] = True
+        if intuniv.rng_for(seed, "C08/sharedstat", i).random() < 0.08:
+            # a product of two non-atom factors in which two statistics of the parent agree on one
+            # factor (a letter is forbidden there) and share one parameter of it, while they differ
+            # on the other factor: compositions giving the two different shares must be rejected
+            d = intuniv.rng_for(seed, "C08/sharedstat2", i)
+            x, y = d.sample("ab", 2)
+            left = {"prefix": d.choice(("", x)), "patterns": sorted({y} | ({x * 3} if d.random() < 0.4 else set())),
+                    "alphabet": "ab", "just_prefix": False, "proper": False}
+            stats = [["k_0", "ab"], ["k_1", x]] + ([["k_2", y]] if d.random() < 0.4 else [])
+            right = {"prefix": "", "patterns": sorted({d.choice(("aa", "bb", "aba", "bab"))} if d.random() < 0.6 else set()),
+                     "alphabet": "ab", "just_prefix": False, "stats": stats, "proper": False, "right": None}
+            case["cls"] = dict(left, stats=stats, bytes=False, right=right)
+            case["pack"].update(merge=True, swap=False, factory=None, inferral=[], sym=False, ver="stat",
+                                iterative=False, dead=False)
         if rw.is_empty(case["cls"]):
             continue
         case["schedule"] = {"mode": "drain", "rng_seed": rng.randrange(10 ** 6), "tree_k": 1, "perc": 1,
